@@ -4,6 +4,7 @@ import (
 	"encoding/json"
 	"fmt"
 	"math"
+	"math/big"
 
 	"github.com/peterstace/simplefeatures/geom"
 	"verif/engine"
@@ -215,6 +216,28 @@ func c12Unary(r *engine.Run, e refEnv) {
 		if !sameEnv(got, want) {
 			bad("TransformXY."+t.name, envStr(got))
 		}
+	}
+}
+
+// c12UnaryExtreme: Center is the midpoint (exactly, computed without overflow), for any finite envelope.
+func c12UnaryExtreme(r *engine.Run, e refEnv) {
+	if e.Empty {
+		return
+	}
+	c := c12EnvCase{Envs: []refEnv{e}}
+	l := e.lib()
+	r.Transitions.Add(2)
+	r.Evaluations.Add(1)
+	xy, ok := l.Center().XY()
+	mid := func(a, b float64) float64 {
+		f, _ := new(big.Float).Quo(new(big.Float).Add(big.NewFloat(a), big.NewFloat(b)), big.NewFloat(2)).Float64()
+		return f
+	}
+	if !ok || xy.X != mid(e.X0, e.X1) || xy.Y != mid(e.Y0, e.Y1) {
+		r.Violation("C12/env.Center.extremeMagnitude", "env1", c, fmt.Sprint(xy, ok))
+	}
+	if !sameEnv(l, e) || l.Validate() != nil {
+		r.Violation("C12/env.NewEnvelope.extremeMagnitude", "env1", c, envStr(l))
 	}
 }
 
@@ -510,6 +533,24 @@ func c12Main(r *engine.Run) {
 			c12Pair(r, a, b)
 		}
 	}
+	// the same lattice at extreme magnitudes (geometry envelopes come from any finite coordinates):
+	// scaled by 1e-200, 1e200, 8e307 (sums overflow) and 5e-324 (subnormal), singles and all ordered pairs of the 3×3 lattice
+	for _, sc := range []float64{1e-200, 1e200, 8e307, 5e-324} {
+		var scaled []refEnv
+		for _, e := range latticeEnvs(3) {
+			if !e.Empty {
+				e = refEnv{false, e.X0 * sc, e.Y0 * sc, e.X1 * sc, e.Y1 * sc}
+			}
+			scaled = append(scaled, e)
+		}
+		for _, a := range scaled {
+			c12UnaryExtreme(r, a)
+			for _, b := range scaled {
+				c12Pair(r, a, b)
+			}
+		}
+	}
+	r.Bound("envelope lattice 3×3 scaled by 1e-200, 1e200, 8e307 and 5e-324: singles (Center, Width/Height finite and exact) and all ordered pairs")
 	r.Sample("env2", c12EnvCase{Envs: []refEnv{envs[5], envs[57]}})
 	r.Bound(fmt.Sprintf("all ordered envelope pairs over the %d×%d lattice + empty: %d", n, n, len(envs)*len(envs)))
 	// triples: quick uses the 3x3 lattice (37^3), thorough the 4x4 one (101^3)
